@@ -47,9 +47,38 @@ class Obj:
         self.cls = cls
         self.f = dict(f)
         self.oid = next(Obj._ids)
+        REGISTRY.append(self)
 
     def __repr__(self):
         return f'<{self.cls}#{self.oid}>'
+
+
+REGISTRY = []        # every heap record of the current path (cleared by Exec.__init__); used by the heap-frame check of the cut-point loop rule
+
+
+def fingerprint(v, depth=0):
+    """structural fingerprint of a field value: equal fingerprints = the value was not modified (heap records are compared by identity, their own fields are
+    fingerprinted separately)"""
+    import z3 as _z3
+    if isinstance(v, _z3.AstRef):
+        return ('z', v.get_id())
+    if isinstance(v, Obj):
+        return ('o', v.oid)
+    if isinstance(v, (list, tuple)):
+        return (type(v).__name__,) + tuple(fingerprint(x, depth + 1) for x in v) if depth < 6 else ('deep', id(v))
+    if isinstance(v, dict):
+        return ('d',) + tuple((fingerprint(k, depth + 1), fingerprint(x, depth + 1)) for k, x in v.items()) if depth < 6 else ('deep', id(v))
+    if isinstance(v, (set, frozenset)):
+        return ('s', frozenset(fingerprint(x, depth + 1) for x in v))
+    if isinstance(v, OptV):
+        return ('opt', fingerprint(v.isnone, depth + 1), fingerprint(v.val, depth + 1))
+    if isinstance(v, SDict):
+        return ('sd', fingerprint(v.keys, depth + 1), fingerprint(v.vals, depth + 1))
+    if isinstance(v, SSet):
+        return ('ss', fingerprint(v.arr, depth + 1))
+    if isinstance(v, (str, int, float, bool, bytes, type(None))):
+        return ('p', type(v).__name__, v)
+    return ('id', id(v))
 
 
 class OptV:
@@ -147,6 +176,12 @@ class Rat:
         self.num = num
         self.den = den
         self.nround = nround    # number of IEEE roundings the float this stands for has gone through (0: exact integer-valued)
+
+
+class LoopCarried:
+    """value of a local that the body of a cut-point loop assigns and that the loop contract did not havoc: reading it is a checker error"""
+    def __init__(self, name, loop):
+        self.name, self.loop = name, loop
 
 
 class Unbound:
